@@ -26,7 +26,7 @@ theorem Wraps.congr {s : List Row} {m m' : KeyMeta} {mat : Nat} (hk : m.kid = m'
 
 theorem encryptInner_spec {a : Nat} {F : Prop} (x : Ctx) (pay ik drk : Nat) (m0 : KeyMeta) (hm0 : m0.kid = x.ikId)
     (ikm dc dm : Nat) (dcr : Int) :
-    Spec a F (fun w => (KeyIs w ik m0.created ikm ∧ Wraps w.store m0 ikm) ∧ KeyIs w drk dcr dm)
+    CSpec a F (fun w => (KeyIs w ik m0.created ikm ∧ Wraps w.store m0 ikm) ∧ KeyIs w drk dcr dm)
       (do
         let encData ← withKey drk fun dm => aeadEncrypt (.payload pay) dm
         let encKey ← withKey ik fun im => withKey drk fun dm => aeadEncrypt (.key dm) im
@@ -34,30 +34,30 @@ theorem encryptInner_spec {a : Nat} {F : Prop} (x : Ctx) (pay ik drk : Nat) (m0 
         let dko ← keyObj drk
         pure (⟨some ⟨dko.created, encKey, some ⟨x.ikId, io.created⟩⟩, encData⟩ : Drr))
       (fun d w => Genuine w.store x.part pay d) := by
-  apply Spec.bind_frame (G1 := fun encData _ => ∃ n, encData = .enc dm n (.payload pay))
+  apply CSpec.bind_frame (G1 := fun encData _ => ∃ n, encData = .enc dm n (.payload pay))
     (P' := fun w => KeyIs w drk dcr dm) _ (fun w _ h => h.2) (by stable_auto)
   · intro encData
-    apply Spec.bind_frame (G1 := fun encKey _ => ∃ n', encKey = .enc ikm n' (.key dm))
+    apply CSpec.bind_frame (G1 := fun encKey _ => ∃ n', encKey = .enc ikm n' (.key dm))
       (P' := fun w => KeyIs w ik m0.created ikm ∧ KeyIs w drk dcr dm) _ (fun w _ h => ⟨h.1.1.1, h.1.2⟩) (by stable_auto)
     · intro encKey
-      apply Spec.bind_frame (keyObj_spec ik m0.created ikm fun w _ h => h.1.1.1.1) (fun _ _ h => h) (by stable_auto)
+      apply CSpec.bind_frame (keyObj_spec ik m0.created ikm fun w _ h => h.1.1.1.1) (fun _ _ h => h) (by stable_auto)
       intro io
-      apply Spec.bind_frame (keyObj_spec' drk) (fun _ _ _ => trivial) (by stable_auto)
+      apply CSpec.bind_frame (keyObj_spec' drk) (fun _ _ _ => trivial) (by stable_auto)
       intro dko
-      refine Spec.pure _ fun w _ h => ?_
+      refine CSpec.pure _ fun w _ h => ?_
       obtain ⟨⟨⟨⟨⟨⟨_, hw⟩, _⟩, n, hn⟩, n', hn'⟩, hio, _⟩, _⟩ := h
       refine ⟨_, io.created, ikm, dm, n, n', ⟨rfl, rfl, hn', hn⟩, hw.congr hm0 hio.symm⟩
-    · exact Spec.withKey ikm (fun w _ h => ⟨_, h.1⟩) (fun im => withKey_ext _ _ fun dm => aeadEncrypt_ext _ _)
-        (Spec.withKey dm (fun w _ h => ⟨_, h.2⟩) (fun dm => aeadEncrypt_ext _ _) (aeadEncrypt_spec _ _))
-  · exact Spec.withKey dm (fun w _ h => ⟨_, h⟩) (fun dm => aeadEncrypt_ext _ _) (aeadEncrypt_spec _ _)
+    · exact CSpec.withKey ikm (fun w _ h => ⟨_, h.1⟩) (fun im => withKey_ext _ _ fun dm => aeadEncrypt_ext _ _)
+        (CSpec.withKey dm (fun w _ h => ⟨_, h.2⟩) (fun dm => aeadEncrypt_ext _ _) (aeadEncrypt_spec _ _))
+  · exact CSpec.withKey dm (fun w _ h => ⟨_, h⟩) (fun dm => aeadEncrypt_ext _ _) (aeadEncrypt_spec _ _)
 
-theorem encryptPayload_spec {a : Nat} {F : Prop} (x : Ctx) (pay : Nat) (rl : Bool) :
-    Spec a F (TimeOK x) (encryptPayload x pay rl) (fun d w => Genuine w.store x.part pay d) := by
+theorem encryptPayload_cspec {a : Nat} {F : Prop} (x : Ctx) (pay : Nat) (rl : Bool) :
+    CSpec a F (TimeOK x) (encryptPayload x pay rl) (fun d w => Genuine w.store x.part pay d) := by
   unfold encryptPayload
-  apply Spec.bind (getOrLoadLatest_spec x.ikCache x.ikId _ _ _ (fun _ => loadLatestOrCreateIntermediateKey_ext x rl)
-    (Stable.timeOK x) (loadLatestOrCreateIntermediateKey_spec x rl))
+  apply CSpec.bind (getOrLoadLatest_cspec x.ikCache x.ikId _ _ _ (fun _ => loadLatestOrCreateIntermediateKey_ext x rl)
+    (Stable.timeOK x) (loadLatestOrCreateIntermediateKey_cspec x rl))
   intro ik
-  refine Spec.finallyDo ?_ (fun _ => Stable.genuine _ _ _) (keyRelease_spec ik)
+  refine CSpec.finallyDo ?_ (fun _ => Stable.genuine _ _ _) (keyRelease_cspec ik)
   have hext : Extends (do
       let w ← get
       let (s, m) ← secretRandom
@@ -71,32 +71,32 @@ theorem encryptPayload_spec {a : Nat} {F : Prop} (x : Ctx) (pay : Nat) (rl : Boo
     ext_auto [secretRandom_ext, keyCloseRaw_ext]
     · exact withKey_ext _ _ fun dm => aeadEncrypt_ext _ _
     · exact withKey_ext _ _ fun im => withKey_ext _ _ fun dm => aeadEncrypt_ext _ _
-  apply Spec.pre (P := fun w => ∃ m0 : KeyMeta, ∃ ikm, m0.kid = x.ikId ∧ (KeyIs w ik m0.created ikm ∧ Wraps w.store m0 ikm))
+  apply CSpec.pre (P := fun w => ∃ m0 : KeyMeta, ∃ ikm, m0.kid = x.ikId ∧ (KeyIs w ik m0.created ikm ∧ Wraps w.store m0 ikm))
   · intro w _ h
     obtain ⟨m0, hm0, _, hg⟩ := h
     obtain ⟨ikm, h1, h2⟩ := hg.keyIs
     exact ⟨m0, ikm, hm0, h1, h2⟩
-  apply Spec.exists_pre hext; intro m0
-  apply Spec.exists_pre hext; intro ikm
-  apply Spec.of_pre (C := m0.kid = x.ikId) hext (fun w _ h => h.1)
+  apply CSpec.exists_pre hext; intro m0
+  apply CSpec.exists_pre hext; intro ikm
+  apply CSpec.of_pre (C := m0.kid = x.ikId) hext (fun w _ h => h.1)
   intro hm0
-  apply Spec.pre (P := fun w => KeyIs w ik m0.created ikm ∧ Wraps w.store m0 ikm) (fun w _ h => h.2)
-  apply Spec.bind_frame Spec.get (fun _ _ _ => trivial) (by stable_auto)
+  apply CSpec.pre (P := fun w => KeyIs w ik m0.created ikm ∧ Wraps w.store m0 ikm) (fun w _ h => h.2)
+  apply CSpec.bind_frame CSpec.get (fun _ _ _ => trivial) (by stable_auto)
   intro w0
-  apply Spec.pre (P := fun w => KeyIs w ik m0.created ikm ∧ Wraps w.store m0 ikm) (fun w _ h => h.1)
-  apply Spec.bind_frame (secretRandom_spec) (fun _ _ _ => trivial) (by stable_auto)
+  apply CSpec.pre (P := fun w => KeyIs w ik m0.created ikm ∧ Wraps w.store m0 ikm) (fun w _ h => h.1)
+  apply CSpec.bind_frame (secretRandom_cspec) (fun _ _ _ => trivial) (by stable_auto)
   intro sm
   obtain ⟨s, dm⟩ := sm
   dsimp only
-  apply Spec.pre (P := fun w => KeyIs w ik m0.created ikm ∧ Wraps w.store m0 ikm) (fun w _ h => h.1)
-  apply Spec.bind_frame (newKeyObj_spec _ false dm s) (fun _ _ _ => trivial) (by stable_auto)
+  apply CSpec.pre (P := fun w => KeyIs w ik m0.created ikm ∧ Wraps w.store m0 ikm) (fun w _ h => h.1)
+  apply CSpec.bind_frame (newKeyObj_cspec _ false dm s) (fun _ _ _ => trivial) (by stable_auto)
   intro drk
-  refine Spec.finallyDo ?_ (fun _ => Stable.genuine _ _ _) (keyCloseRaw_spec drk)
+  refine CSpec.finallyDo ?_ (fun _ => Stable.genuine _ _ _) (keyCloseRaw_cspec drk)
   exact encryptInner_spec x pay ik drk m0 hm0 ikm 0 dm _
 
-theorem decryptRow_spec {a : Nat} {F : Prop} (ik : Nat) (dk : DrrKey) (data : Ct) (c : Int) (ikm dm n n' pay : Nat)
+theorem decryptRow_cspec {a : Nat} {F : Prop} (ik : Nat) (dk : DrrKey) (data : Ct) (c : Int) (ikm dm n n' pay : Nat)
     (hk : dk.enc = .enc ikm n' (.key dm)) (hd : data = .enc dm n (.payload pay)) :
-    Spec a F (fun w => KeyIs w ik c ikm) (decryptRow ik dk data) (fun p _ => p = pay) := by
+    CSpec a F (fun w => KeyIs w ik c ikm) (decryptRow ik dk data) (fun p _ => p = pay) := by
   unfold decryptRow
   have hfe : ∀ im, Extends (do
       let pt ← aeadDecrypt dk.enc im
@@ -109,35 +109,35 @@ theorem decryptRow_spec {a : Nat} {F : Prop} (ik : Nat) (dk : DrrKey) (data : Ct
           | .key _ => throw .aead) (wipeBuf b)
       | .payload _ => throw .aead) := by
     intro im; ext_auto [aeadDecrypt_ext]
-  refine Spec.withKey ikm (fun w _ h => ⟨c, h⟩) hfe ?_
-  apply Spec.bind_frame (aeadDecrypt_spec dk.enc ikm) (fun w _ _ _ => ⟨n', _, hk⟩) (by stable_auto)
+  refine CSpec.withKey ikm (fun w _ h => ⟨c, h⟩) hfe ?_
+  apply CSpec.bind_frame (aeadDecrypt_spec dk.enc ikm) (fun w _ _ _ => ⟨n', _, hk⟩) (by stable_auto)
   intro pt
-  apply Spec.of_pre (C := pt = .key dm) (by ext_auto [aeadDecrypt_ext])
+  apply CSpec.of_pre (C := pt = .key dm) (by ext_auto [aeadDecrypt_ext])
     (fun w _ h => by obtain ⟨n2, hn2⟩ := h.2; rw [hk] at hn2; cases hn2; rfl)
   intro hpt
   subst hpt
   dsimp only
-  apply Spec.bind (newBuf_spec dm)
+  apply CSpec.bind (newBuf_cspec dm)
   intro b
-  refine Spec.finallyDo ?_ (fun _ => Stable.const _) (wipeBuf_spec b)
-  apply Spec.bind ((aeadDecrypt_spec data dm).pre fun w _ _ _ => ⟨n, _, hd⟩)
+  refine CSpec.finallyDo ?_ (fun _ => Stable.const _) (wipeBuf_spec b)
+  apply CSpec.bind ((aeadDecrypt_spec data dm).pre fun w _ _ _ => ⟨n, _, hd⟩)
   intro pt2
-  apply Spec.of_pre (C := pt2 = .payload pay) (by ext_auto)
+  apply CSpec.of_pre (C := pt2 = .payload pay) (by ext_auto)
     (fun w _ h => by obtain ⟨n2, hn2⟩ := h; rw [hd] at hn2; cases hn2; rfl)
   intro hpt2
   subst hpt2
-  exact Spec.pure _ fun _ _ _ => rfl
+  exact CSpec.pure _ fun _ _ _ => rfl
 
-theorem decryptDataRowRecord_spec {a : Nat} {F : Prop} (x : Ctx) (d : Drr) (rl : Bool) (pay : Nat) :
-    Spec a F (fun w => Genuine w.store x.part pay d) (decryptDataRowRecord x d rl) (fun p _ => p = pay) := by
+theorem decryptDataRowRecord_cspec {a : Nat} {F : Prop} (x : Ctx) (d : Drr) (rl : Bool) (pay : Nat) :
+    CSpec a F (fun w => Genuine w.store x.part pay d) (decryptDataRowRecord x d rl) (fun p _ => p = pay) := by
   have hext := decryptDataRowRecord_ext x d rl
-  apply Spec.exists_pre hext; intro dk
-  apply Spec.exists_pre hext; intro c
-  apply Spec.exists_pre hext; intro ikm
-  apply Spec.exists_pre hext; intro dm
-  apply Spec.exists_pre hext; intro n
-  apply Spec.exists_pre hext; intro n'
-  apply Spec.of_pre (C := (d.key = some dk ∧ dk.parent = some ⟨.ik x.part, c⟩ ∧
+  apply CSpec.exists_pre hext; intro dk
+  apply CSpec.exists_pre hext; intro c
+  apply CSpec.exists_pre hext; intro ikm
+  apply CSpec.exists_pre hext; intro dm
+  apply CSpec.exists_pre hext; intro n
+  apply CSpec.exists_pre hext; intro n'
+  apply CSpec.of_pre (C := (d.key = some dk ∧ dk.parent = some ⟨.ik x.part, c⟩ ∧
     dk.enc = .enc ikm n' (.key dm) ∧ d.data = .enc dm n (.payload pay)) ∧ c ≠ 0) hext
   · intro w hi h
     refine ⟨h.1, ?_⟩
@@ -145,17 +145,17 @@ theorem decryptDataRowRecord_spec {a : Nat} {F : Prop} (x : Ctx) (d : Drr) (rl :
     have hc' : r.created = c := hc
     rw [← hc']; exact hi.wf.nz r hr
   intro ⟨⟨hkey, hpar, henc, hdata⟩, hcz⟩
-  apply Spec.pre (P := fun w => Wraps w.store ⟨.ik x.part, c⟩ ikm) (fun w _ h => h.2)
+  apply CSpec.pre (P := fun w => Wraps w.store ⟨.ik x.part, c⟩ ikm) (fun w _ h => h.2)
   unfold decryptDataRowRecord
   rw [hkey]; dsimp only
   rw [hpar]; dsimp only
   rw [if_neg (by intro h; exact h rfl)]
-  apply Spec.bind_frame (getOrLoad_spec x.ikCache ⟨.ik x.part, c⟩ _ (fun m => loadIntermediateKey x m rl)
-    (fun m => loadIntermediateKey_ext x m rl) (by stable_auto) (loadIntermediateKey_spec x ⟨.ik x.part, c⟩ rl rfl))
+  apply CSpec.bind_frame (getOrLoad_cspec x.ikCache ⟨.ik x.part, c⟩ _ (fun m => loadIntermediateKey x m rl)
+    (fun m => loadIntermediateKey_ext x m rl) (by stable_auto) (loadIntermediateKey_cspec x ⟨.ik x.part, c⟩ rl rfl))
     (fun w _ h _ => ⟨ikm, h⟩) (by stable_auto)
   intro ik
-  refine Spec.finallyDo ?_ (fun _ => Stable.const _) (keyRelease_spec ik)
-  refine (decryptRow_spec ik dk d.data c ikm dm n n' pay henc hdata).pre fun w hi h => ?_
+  refine CSpec.finallyDo ?_ (fun _ => Stable.const _) (keyRelease_cspec ik)
+  refine (decryptRow_cspec ik dk d.data c ikm dm n n' pay henc hdata).pre fun w hi h => ?_
   obtain ⟨mat, hki, hw⟩ := (GoodFor.of_nz hcz h.2).keyIs
   have := Wraps.unique hi.wf hw h.1
   subst this
